@@ -315,7 +315,7 @@ MIXES = [("deep", "all", "all", "unique"), ("deep", "unique", "deep", "left"),
 def plan(tier, seed):
     nsh = 32
     return [{"kind": "enum", "part": i, "parts": nsh, "offset": seed,
-             "stride": 3 if tier == "quick" else 1} for i in range(nsh)]
+             "stride": 5 if tier == "quick" else 1} for i in range(nsh)]
 
 
 def run_shard(shard):
